@@ -45,6 +45,10 @@ Definition small (x : Z) : bool := Z.abs x <? 2 ^ 52.
 
 (* ---- _data2coord(vals, val_range, n) -----------------------------------
      x_width = val_range[1] - val_range[0]
+     if x_width == 0:
+         res = np.zeros(len(vals), dtype=np.int64)
+         res[vals > val_range[1]] = n - 1
+         return res
      scaled = (vals - val_range[0]) * (n / x_width)
      scaled[scaled < 0] = 0
      scaled[scaled > n - 1] = n - 1
@@ -70,9 +74,19 @@ Definition data2coord1 (v lo x_width n : Z) : Z :=
   let res := if n - 1 <? res then n - 1 else res in
   res.
 
+(* a range without extent: values up to the single value of the range, and NaN (which fails the
+   comparison), go to cell 0, values beyond it to cell n - 1.  (In exact arithmetic the
+   zero-extent widening by [one] > 0 always gives a width, so [hd1] below never gets here: the
+   branch is taken by the floats only where + 1.0 is absorbed, |coordinate| >= 2^53, outside the
+   regime - see Model/FloatData2Coord.v.) *)
+Definition data2coord0 (v : num) (hi n : Z) : Z :=
+  match v with Some v => if hi <? v then n - 1 else 0 | None => 0 end.
+
 (* one value: [None] (NaN) -> not modelled (x86-64: INT64_MIN, clipped to 0) *)
 Definition data2coord (vals : list num) (lo hi : Z) (n : Z) : list (option Z) :=
   let x_width := hi - lo in
+  if x_width =? 0 then map (fun v => Some (data2coord0 v hi n)) vals
+  else
   map (fun v => match v with
                 | Some v => Some (data2coord1 v lo x_width n)
                 | None => None
